@@ -7,6 +7,7 @@ import DG.Segment
 import DG.Reload
 import DG.JsrProto
 import DG.ModInfoProto
+import DG.Deps
 import DG.TextPos
 import DG.Exports
 import DG.EraseProto
@@ -193,6 +194,24 @@ def handle (st : DState) (req : Sexp) : DState × String :=
     match DG.MI.Proto.json? j with
     | some j => (st, DG.MI.Proto.roundtrip j)
     | none => (st, "bad-op")
+  | .list [.atom "mod-deps", it, isd, ist, isj, hdr, .list (.atom "resc" :: tc), .list (.atom "rest" :: tt), j] =>
+    let entry? : Sexp → Option (String × DG.Deps.R) := fun
+      | Sexp.list [Sexp.atom k, Sexp.atom "err"] =>
+        if k.startsWith "s:" then some (String.ofList (k.toList.drop 2), DG.Deps.R.err) else none
+      | Sexp.list [Sexp.atom k, v] =>
+        if k.startsWith "s:" then (nat? v).map fun n => (String.ofList (k.toList.drop 2), DG.Deps.R.ok n) else none
+      | _ => none
+    let hdr? : Option (Option String) := match hdr with
+      | Sexp.atom "-" => some none
+      | Sexp.atom a => if a.startsWith "s:" then some (some (String.ofList (a.toList.drop 2))) else none
+      | _ => none
+    match bool? it, bool? isd, bool? ist, bool? isj, hdr?, tc.mapM entry?, tt.mapM entry?, (DG.MI.Proto.json? j).bind DG.MI.decode with
+    | some it, some isd, some ist, some isj, some hdr, some tc, some tt, some mi =>
+      let env : DG.Deps.Env :=
+        { includeTypes := it, isDeclaration := isd, isTyped := ist, isJsx := isj, header := hdr,
+          resC := fun t => (tc.lookup t).getD .err, resT := fun t => (tt.lookup t).getD .err }
+      (st, (DG.Deps.analyse env mi).render)
+    | _, _, _, _, _, _, _, _ => (st, "bad-op")
   | .list [.atom "mi-upgrade", lo, hi, line, col, q] =>
     -- comment range arithmetic of module_graph_1_to_2
     match nat? lo, nat? hi, nat? line, nat? col, bool? q with
